@@ -30,7 +30,7 @@ from fractions import Fraction
 import struct
 
 PROP = "C12"
-READY = False
+READY = True
 COQ_PROPS = ['Properties_C12']
 RULE = ('operation scripts over 1..4 registers holding frequent_items_sketch<uint64_t,uint64_t,MulHash>, <uint64_t,uint64_t,ClusterHash> '
         '(5 distinct hash values: long probe clusters, wrap-around, back-shift deletes) or <std::string,int64_t,FNV1a>; lg_max 3..8 '
